@@ -85,8 +85,16 @@ def mkpair(u, v):
     return (u, v)
 
 
+class Obj(object):
+    """target of attribute stores in chained assignments"""
+
+    def __init__(self):
+        self.v = 0
+
+
 def namespace():
     return {'G_INT': 7, 'G_FLT': 2.5, 'G_STR': 'gs', 'G_BOOL': False, 'G_TUP': (1, 'a'), 'G_LST': [1, 2.5, 's'],
+            'G_OBJ': Obj(),
             'ident': ident, 'pick': pick, 'tostr': tostr, 'length': length, 'mkpair': mkpair}
 
 
@@ -327,7 +335,7 @@ class Gen(object):
     def stmt(self, ind, env, depth, infun):
         r = self.r
         self.budget -= 1
-        kinds = ['assign'] * 6 + ['unpack'] * 2 + ['expr']
+        kinds = ['assign'] * 6 + ['unpack'] * 2 + ['expr'] + ['chain'] * 3
         if depth < 2 and self.budget > 0:
             kinds += ['if'] * 3 + ['while'] + ['for']
         if self.o.nested and not infun and depth == 0 and self.nfun < 2:
@@ -347,6 +355,8 @@ class Gen(object):
             self.emit(ind, '%s = %s' % (v, e))
             env[v] = t
             return env
+        if k == 'chain':
+            return self.chain(ind, env, vars_)
         if k == 'unpack' and not infun and r.random() < 0.3:
             vs = r.sample(vars_, 3)
             parts = [self.expr(env, 1) for _ in vs]
@@ -496,6 +506,82 @@ class Gen(object):
             for nl in rebinds:
                 env[nl] = {typing.Any}
             return env
+        return env
+
+    def chain(self, ind, env, vars_):
+        """Chained / multi-target assignment `t1 = t2 = ... = rhs` with every kind of target in every order:
+        plain names, tuple and list unpacking, nested unpacking, attribute and subscript stores and (untyped
+        stream: known finding) starred targets.  The right-hand side is a syntactic tuple (or a name known to hold
+        2-tuples) so that every unpacking target fits."""
+        r = self.r
+        penv = {n: s for n, s in env.items() if n in PARAMS} if self.inloop else env
+        n = r.choice([2, 2, 3])
+        parts = []
+        for i in range(n):
+            if r.random() < 0.3:
+                a, b = self.expr(penv, 2), self.expr(penv, 2)
+                if len(a[1]) * len(b[1]) <= 4:
+                    parts.append(('(%s, %s)' % (a[0], b[0]), {(x, y) for x in a[1] for y in b[1]}, (a[1], b[1])))
+                    continue
+            e = self.expr(penv, 1)
+            parts.append((e[0], e[1], None))
+        whole = set(itertools.product(*[sorted(p[1], key=tname) for p in parts]))
+        if len(whole) > 8:
+            parts = [(c[0], c[1], None) for c in (self.const() for _ in range(n))]
+            whole = set(itertools.product(*[sorted(p[1], key=tname) for p in parts]))
+        rhs = '(' + ', '.join(p[0] for p in parts) + ')'
+        cands = [(nm, st) for nm, st in self.known(env)
+                 if st and all(isinstance(t, tuple) and len(t) == 2 for t in st) and len(st) <= 4]
+        if cands and r.random() < 0.25:
+            nm, st = r.choice(cands)
+            rhs, whole, n = nm, set(st), 2
+            parts = [(None, {t[0] for t in st}, None), (None, {t[1] for t in st}, None)]
+        ntargets = r.choice([2, 2, 3])
+        forms = ['name', 'name', 'unpack', 'unpack', 'lunpack', 'nested', 'attr', 'sub']
+        if self.o.untyped:
+            forms += ['star']
+        targets = []
+        binds = []      # (name, tags) in assignment order
+        for _ in range(ntargets):
+            f = r.choice(forms)
+            if f == 'nested' and not any(p[2] for p in parts):
+                f = 'unpack'
+            if f == 'name':
+                v = r.choice(vars_)
+                targets.append(v)
+                binds.append((v, whole))
+            elif f in ('unpack', 'lunpack'):
+                vs = [r.choice(vars_) for _ in range(n)]
+                targets.append(('[%s]' if f == 'lunpack' else '%s') % ', '.join(vs) if n > 1 or f == 'lunpack'
+                               else '%s,' % vs[0])
+                binds += [(v, p[1]) for v, p in zip(vs, parts)]
+            elif f == 'nested':
+                elts = []
+                for p in parts:
+                    if p[2] and r.random() < 0.7:
+                        v1, v2 = r.choice(vars_), r.choice(vars_)
+                        elts.append(('(%s, %s)' if r.random() < 0.5 else '[%s, %s]') % (v1, v2))
+                        binds += [(v1, p[2][0]), (v2, p[2][1])]
+                    else:
+                        v = r.choice(vars_)
+                        elts.append(v)
+                        binds.append((v, p[1]))
+                targets.append(', '.join(elts))
+            elif f == 'star':
+                vs = [r.choice(vars_) for _ in range(2)]
+                targets.append('%s, *%s' % (vs[0], vs[1]) if r.random() < 0.5 else '*%s, %s' % (vs[0], vs[1]))
+                if targets[-1].startswith('*'):
+                    binds += [(vs[0], {list}), (vs[1], parts[-1][1])]
+                else:
+                    binds += [(vs[0], parts[0][1]), (vs[1], {list})]
+            elif f == 'attr':
+                targets.append('G_OBJ.v')
+            else:
+                targets.append('G_LST[%d]' % r.randrange(3))
+        self.emit(ind, ' = '.join(targets + [rhs]))
+        env = dict(env)
+        for v, t in binds:
+            env[v] = set(t)
         return env
 
     def gen_inner(self, ind, g, npar, rebinds):
@@ -720,6 +806,11 @@ class Instrumenter(ast.NodeTransformer):
         visit_Subscript = visit_Call = visit_BoolOp = visit_IfExp = visit_expr_node
 
     def bind_call(self, stmt_k, stores):
+        # a name bound several times by one statement holds the value of its LAST binding occurrence
+        last = {}
+        for t in stores:
+            last[t.id] = t
+        stores = [t for t in stores if last[t.id] is t]
         elts = []
         for t in stores:
             owner = self.p.owner(self.cur(), t.id)
@@ -730,7 +821,16 @@ class Instrumenter(ast.NodeTransformer):
 
     @staticmethod
     def stores(target):
-        return [n for n in ast.walk(target) if isinstance(n, ast.Name) and isinstance(n.ctx, ast.Store)]
+        # binding occurrences in execution order (depth first, left to right)
+        out = []
+
+        def rec(n):
+            if isinstance(n, ast.Name) and isinstance(n.ctx, ast.Store):
+                out.append(n)
+            for c in ast.iter_child_nodes(n):
+                rec(c)
+        rec(target)
+        return out
 
     def visit_Assign(self, node):
         k = self.k(node)
@@ -1054,6 +1154,22 @@ def analyze(prog, resolver):
 UNTYPED = 'c19-untyped-binding-keeps-stale-types'
 SIDE = 'c19-local-function-side-effects-not-applied'
 ALIAS = 'c19-closure-types-miss-calls-through-alias'
+STAR = 'c19-starred-unpacking-typed-by-position'
+
+
+def in_starred_unpacking(prog, k):
+    """node k is a binding occurrence inside a tuple/list target that has a starred element"""
+    if not hasattr(prog, 'parent'):
+        prog.parent = {}
+        for n in prog.nodes:
+            for c in ast.iter_child_nodes(n):
+                prog.parent[id(c)] = n
+    n = prog.parent.get(id(prog.nodes[k]))
+    while isinstance(n, (ast.Tuple, ast.List, ast.Starred)):
+        if isinstance(n, (ast.Tuple, ast.List)) and any(isinstance(e, ast.Starred) for e in n.elts):
+            return True
+        n = prog.parent.get(id(n))
+    return False
 
 
 def escapes(prog, g):
@@ -1083,6 +1199,9 @@ def judge(prog, an, runs):
       say 'unknown', so the name keeps the types of earlier bindings / of the other paths.
     SIDE: the offending value was bound inside a local function through a `nonlocal` declaration; calls
       of local functions have no side effects in the analysis.
+    STAR: the binding occurrence sits in an unpacking target with a starred element: _apply_unpacking gives
+      the i-th target the type of element i of the right-hand side, also to the starred name (a list at
+      run time) and to the names after it (which take elements counted from the end).
     ALIAS: a captured variable is read inside a local function (or listed in its closure types) whose
       function value escapes (h = g, argument, return value): closure types are collected only at
       statements that read the def name, a later call through the alias is not a call site.
@@ -1129,6 +1248,8 @@ def judge(prog, an, runs):
                         stmt_cause[st] = cause
                 elif not is_read:
                     cause = stmt_cause.get(st)
+                    if ev[0] == 'B' and cause is None and in_starred_unpacking(prog, k):
+                        cause = STAR
                     if ev[0] == 'B' and cause:
                         tainted[k] = cause
                 key = (ev[0], k, tname(typeof(v)), cause)
